@@ -193,19 +193,62 @@ def _as_real_z(x):
   return None
 
 
+def split_affine(az, dz):
+  """az == x*dz + y syntactically -> (x, y)."""
+  if not z3.is_add(az):
+    if z3.is_mul(az):
+      x = _factor_out(az, dz)
+      if x is not None:
+        return x, z3.IntVal(0)
+    return None
+  kids = az.children()
+  for i, k in enumerate(kids):
+    x = _factor_out(k, dz) if z3.is_mul(k) else (z3.IntVal(1) if k.eq(dz) else None)
+    if x is not None:
+      rest = [kk for j, kk in enumerate(kids) if j != i]
+      y = rest[0] if len(rest) == 1 else (z3.Sum(rest) if rest else z3.IntVal(0))
+      return x, y
+  return None
+
+
+def _factor_out(mul, dz):
+  kids = mul.children()
+  for i, k in enumerate(kids):
+    if k.eq(dz):
+      rest = [kk for j, kk in enumerate(kids) if j != i]
+      if not rest:
+        return z3.IntVal(1)
+      x = rest[0]
+      for r_ in rest[1:]:
+        x = x * r_
+      return x
+  return None
+
+
 def floordiv_int(a, b, check=True):
   """Python floor division / modulo on z3 ints: returns (q, r)."""
   c = cur()
   if check:
-    c.oblige("nonzero-divisor", b != 0, kind="definedness")
+    c.oblige(f"nonzero-divisor@{getattr(c, 'site', '')}", b != 0, kind="definedness")
   if z3.is_int_value(b) and b.as_long() > 0:
     # z3 div/mod are floor for positive divisors
     return a / b, a % b
+  key = ("floordiv", a.get_id(), b.get_id())
+  if key in c.ghost:
+    return c.ghost[key]
+  sp = split_affine(a, b)
+  if sp is not None:
+    x, y = sp
+    side = z3.Or(z3.And(y >= 0, y < b), z3.And(y <= 0, y > b))
+    if c.solver.check(z3.Not(side)) == z3.unsat:
+      c.ghost[key] = (x, y)
+      return x, y
   q = c.fresh_int("q")
   r = c.fresh_int("r")
   c.assume(a == q * b + r)
   c.assume(z3.Implies(b > 0, z3.And(0 <= r, r < b)))
   c.assume(z3.Implies(b < 0, z3.And(b < r, r <= 0)))
+  c.ghost[key] = (q, r)
   return q, r
 
 
@@ -564,6 +607,8 @@ def sand(*xs):
       if not x:
         return SBool(z3.BoolVal(False))
       continue
+    if hasattr(x, "_pyvc_truth"):
+      x = x._pyvc_truth()
     zs.append(x.z if isinstance(x, Sym) else x)
   if not zs:
     return SBool(z3.BoolVal(True))
@@ -577,6 +622,8 @@ def sor(*xs):
       if x:
         return SBool(z3.BoolVal(True))
       continue
+    if hasattr(x, "_pyvc_truth"):
+      x = x._pyvc_truth()
     zs.append(x.z if isinstance(x, Sym) else x)
   if not zs:
     return SBool(z3.BoolVal(False))
@@ -597,6 +644,36 @@ def implies(a, b):
 
 def is_sym(x):
   return isinstance(x, Sym)
+
+
+def prove(cond):
+  """True if the path condition entails cond (cheap solver query; False if unknown)."""
+  if isinstance(cond, bool):
+    return cond
+  cz = cond.z if isinstance(cond, Sym) else cond
+  sc = z3.simplify(cz)
+  if z3.is_true(sc):
+    return True
+  if z3.is_false(sc):
+    return False
+  return cur().solver.check(z3.Not(cz)) == z3.unsat
+
+
+def concretize(x):
+  """If the path condition forces x to a single integer value, returns it."""
+  ci = concrete_int(x)
+  if ci is not None or not isinstance(x, SInt):
+    return ci
+  c = cur()
+  s = c.solver
+  if s.check() != z3.sat:
+    return None
+  v = s.model().eval(x.z, model_completion=True)
+  if not z3.is_int_value(v):
+    return None
+  if s.check(x.z != v) == z3.unsat:
+    return v.as_long()
+  return None
 
 
 def concrete_int(x):
